@@ -69,8 +69,7 @@ def restart_chain(at, settings_args, Fw, ps, progset, ins, ks, label, records, i
         tol = "1e-12"
         if spreadsheet:
             ss = ps2.calibration_spreadsheet()
-            ps3 = sc.dcp(cur_ps)
-            ps3.initialization = None
+            ps3 = sc.dcp(cur_ps)  # (in a chain this parameter set still carries the state saved for the previous restart: loading replaces it)
             ps3.load_calibration(ss)
             ps2 = ps3
             tol = "1e-9"
